@@ -35,11 +35,11 @@ Theorem C05_pragma_once :
 Proof. exact ex_C05_pragma_once. Qed.
 Print Assumptions C05_pragma_once.
 
-(* witness: a static assertion as a sub-statement puts a list into a statement slot *)
-Theorem C05_static_assert_stmt_refuted :
-  outcome_str (s2l "void f(){ if (x) _Static_assert(1,""a""); }") = s2l "OK|(FileAST [(FuncDef (Decl 'f' [] [] [] [] (FuncDecl None (TypeDecl 'f' [] None (IdentifierType ['void']))) None None) None (Compound [(If (ID 'x') [(StaticAssert (Constant 'int' '1') (Constant 'string' '""a""'))] None),(EmptyStatement)]))])".
-Proof. exact ex_C05_static_assert_stmt_refuted. Qed.
-Print Assumptions C05_static_assert_stmt_refuted.
+(* a static assertion as a sub-statement is one node, like any statement (was a Python list before the fix: commit) *)
+Theorem C05_static_assert_stmt :
+  outcome_str (s2l "void f(){ if (x) _Static_assert(1,""a""); }") = s2l "OK|(FileAST [(FuncDef (Decl 'f' [] [] [] [] (FuncDecl None (TypeDecl 'f' [] None (IdentifierType ['void']))) None None) None (Compound [(If (ID 'x') (StaticAssert (Constant 'int' '1') (Constant 'string' '""a""')) None),(EmptyStatement)]))])".
+Proof. exact ex_C05_static_assert_stmt. Qed.
+Print Assumptions C05_static_assert_stmt.
 
 (* fix_switch_cases: for a switch body of ANY length whose label chains have ANY depth, the regrouped
    body is exactly: statements under the nearest preceding label, consecutive labels as siblings,
